@@ -10,6 +10,8 @@ import (
 type Function struct {
 	name         string
 	logicHandler r.FuncExecutor
+	// module - the module whose code defines this method (nil for native functions)
+	module *r.Module
 }
 
 func NewFunction(executor r.FuncExecutor) *Function {
@@ -24,6 +26,17 @@ func (fn *Function) String() string {
 		return "‹某方法›"
 	}
 	return fmt.Sprintf("‹方法·%s›", fn.name)
+}
+
+// SetModule - bind the method to the module that defines it: its body runs there whatever
+// name (an alias, a parameter, a list item) it is called through
+func (fn *Function) SetModule(module *r.Module) *Function {
+	fn.module = module
+	return fn
+}
+
+func (fn *Function) GetModule() *r.Module {
+	return fn.module
 }
 
 func (fn *Function) SetName(name string) *Function {
